@@ -196,12 +196,13 @@ type readerCfg struct {
 	delta    bool
 }
 
-func (c readerCfg) coq() string {
+// coq renders the reader; cb = an observable callback is registered with the meter.
+func (c readerCfg) coq(cb bool) string {
 	f := "Rm"
 	if c.periodic {
 		f = "Rp"
 	}
-	return vgen.App(f, vgen.Bool(c.delta))
+	return vgen.App(f, vgen.Bool(c.delta), vgen.Bool(cb))
 }
 
 type instr struct {
@@ -454,6 +455,8 @@ func code(err error) uint64 {
 		return 1
 	case errors.Is(err, errCallback):
 		return 2
+	case errors.Is(err, context.Canceled):
+		return 4
 	default:
 		return 9
 	}
@@ -531,7 +534,9 @@ type seqOp struct {
 
 func runSequential(w *vgen.Writer, r *vgen.Rand, desc string, cfgs []readerCfg, nInst, nSets int, ops []seqOp, gen bool, nOps int, kind string) {
 	sets, keyIdx := genSets(r, nSets)
-	wd, err := build(w, r, desc, cfgs, nInst, time.Hour, keyIdx, 0, gen, true)
+	// the observable callback is always there when callback faults are played, otherwise in half of the histories
+	hasCb := !gen || kind == "seq-fault" || r.Bool()
+	wd, err := build(w, r, desc, cfgs, nInst, time.Hour, keyIdx, 0, gen, hasCb)
 	if err != nil {
 		w.Violation("setup failed: "+err.Error(), desc)
 		return
@@ -555,13 +560,20 @@ func runSequential(w *vgen.Writer, r *vgen.Rand, desc string, cfgs []readerCfg, 
 			wd.cbFail.Store(o.b)
 			terms = append(terms, vgen.App("Er", vgen.Bool(o.b)))
 			descOps = append(descOps, fmt.Sprintf("callback fails=%v", o.b))
-		case "collect":
+		case "collect", "collectc":
 			var rm metricdata.ResourceMetrics
 			var e error
+			cctx := ctx
+			if o.typ == "collectc" { // a context that is already cancelled
+				var cancel context.CancelFunc
+				cctx, cancel = context.WithCancel(ctx)
+				cancel()
+				w.Tally("seq:collect with a cancelled context")
+			}
 			if cfgs[o.r].periodic {
-				e = wd.period[o.r].Collect(ctx, &rm)
+				e = wd.period[o.r].Collect(cctx, &rm)
 			} else {
-				e = wd.manual[o.r].Collect(ctx, &rm)
+				e = wd.manual[o.r].Collect(cctx, &rm)
 			}
 			c := code(e)
 			if c == 0 || c == 2 {
@@ -570,8 +582,12 @@ func runSequential(w *vgen.Writer, r *vgen.Rand, desc string, cfgs []readerCfg, 
 				w.Violation("Collect returned an error other than the callback's together with data", desc)
 			}
 			codes[o.r] = append(codes[o.r], vgen.N(c))
-			terms = append(terms, vgen.App("Cl", vgen.N(uint64(o.r))))
-			descOps = append(descOps, fmt.Sprintf("collect r%d -> %d", o.r, c))
+			if o.typ == "collectc" {
+				terms = append(terms, vgen.App("Cc", vgen.N(uint64(o.r))))
+			} else {
+				terms = append(terms, vgen.App("Cl", vgen.N(uint64(o.r))))
+			}
+			descOps = append(descOps, fmt.Sprintf("%s r%d -> %d", o.typ, o.r, c))
 		case "flush":
 			n0 := wd.exps[o.r].count()
 			e := wd.period[o.r].ForceFlush(ctx)
@@ -603,8 +619,10 @@ func runSequential(w *vgen.Writer, r *vgen.Rand, desc string, cfgs []readerCfg, 
 			case c < 55:
 				i := r.Intn(nInst)
 				step(seqOp{typ: "add", i: i, set: r.Intn(len(sets)), v: genValue(r, wd.insts[i])})
-			case c < 72:
+			case c < 66:
 				step(seqOp{typ: "collect", r: rd})
+			case c < 72:
+				step(seqOp{typ: "collectc", r: rd})
 			case c < 88:
 				if cfgs[rd].periodic {
 					step(seqOp{typ: "flush", r: rd})
@@ -643,7 +661,7 @@ func runSequential(w *vgen.Writer, r *vgen.Rand, desc string, cfgs []readerCfg, 
 	var cfgT, codeT []string
 	var cfgD []string
 	for rd, c := range cfgs {
-		cfgT = append(cfgT, c.coq())
+		cfgT = append(cfgT, c.coq(hasCb))
 		codeT = append(codeT, vgen.List(codes[rd]))
 		cfgD = append(cfgD, fmt.Sprintf("periodic=%v delta=%v", c.periodic, c.delta))
 		w.Tally(fmt.Sprintf("seq:reader periodic=%v delta=%v", c.periodic, c.delta))
@@ -819,7 +837,7 @@ func runConcurrent(w *vgen.Writer, r *vgen.Rand, desc string) {
 	}
 	var cfgT, cfgD []string
 	for _, c := range cfgs {
-		cfgT = append(cfgT, c.coq())
+		cfgT = append(cfgT, c.coq(true))
 		cfgD = append(cfgD, fmt.Sprintf("periodic=%v delta=%v", c.periodic, c.delta))
 		w.Tally(fmt.Sprintf("conc:reader periodic=%v delta=%v", c.periodic, c.delta))
 	}
@@ -928,6 +946,18 @@ func runCtxExpiry(w *vgen.Writer, r *vgen.Rand, desc string, variantA bool) {
 			close(gate)
 			return
 		}
+		// ForceFlush with a context that is already cancelled, on the readers that are not stalled: it may
+		// or may not flush (the select in ForceFlush is a coin toss), but it must never consume anything
+		// it does not export - judged after the final Shutdown below
+		for rd := 1; rd < n; rd++ {
+			if cfgs[rd].periodic {
+				dead, cancelDead := context.WithCancel(ctx)
+				cancelDead()
+				_ = wd.period[rd].ForceFlush(dead)
+				w.Tally("ctx-expiry: ForceFlush with a cancelled context")
+				addSome()
+			}
+		}
 		callErr = wd.mp.ForceFlush(cctx)
 		addSome()
 		close(gate)
@@ -965,7 +995,7 @@ func runCtxExpiry(w *vgen.Writer, r *vgen.Rand, desc string, variantA bool) {
 	}
 	var cfgT, cfgD []string
 	for _, c := range cfgs[first:] {
-		cfgT = append(cfgT, c.coq())
+		cfgT = append(cfgT, c.coq(false))
 		cfgD = append(cfgD, fmt.Sprintf("periodic=%v delta=%v", c.periodic, c.delta))
 	}
 	var addT []string
